@@ -43,3 +43,50 @@ Definition fcase_status (c : fcase) : N :=
   let '(fs, e, py, cpp) := c in
   let m := fbits (feval fs e) in
   ((if Z.eqb py m then 0 else 1) + (if Z.eqb cpp m then 0 else 2))%N.
+
+(* ---------- float32 operands ---------- *)
+(* generated C++ computes a float32 expression in `float`; generated Python holds float32 fields as Python floats (doubles)
+   and computes in double, so its value is the double-precision result on the widened operands *)
+Definition of_int32 (z : Z) : binary32 := binary_normalize 24 128 (refl_equal _) (refl_equal _) mode_NE z 0 false.
+
+Fixpoint feval32 (fields : list Z) (e : fexpr) : binary32 :=
+  match e with
+  | FField i => b32_of_bits (nth i fields 0)
+  | FOfInt z => of_int32 z
+  | FNeg a => b32_opp (feval32 fields a)
+  | FBin o a b =>
+      let x := feval32 fields a in
+      let y := feval32 fields b in
+      match o with
+      | FAdd => b32_plus mode_NE x y
+      | FSub => b32_minus mode_NE x y
+      | FMul => b32_mult mode_NE x y
+      | FDiv => b32_div mode_NE x y
+      end
+  end.
+
+Definition fbits32 (x : binary32) : Z := if Binary.is_nan 24 128 x then (-1) else bits_of_b32 x.
+
+(* float32 bit pattern -> the double with the same value (exact) *)
+Definition widen (bits : Z) : Z :=
+  let x := b32_of_bits bits in
+  match x with
+  | B754_zero _ _ s => if s then 2 ^ 63 else 0
+  | B754_infinity _ _ s => (if s then 2 ^ 63 else 0) + 2047 * 2 ^ 52
+  | B754_nan _ _ _ _ _ => -1
+  | B754_finite _ _ s m e _ => bits_of_b64 (binary_normalize 53 1024 (refl_equal _) (refl_equal _) mode_NE (if s then Z.neg m else Z.pos m) e false)
+  end.
+
+(* a case: float32 field bit patterns, expression, bits of the double generated Python computed, bits of the float generated C++ computed.
+   0 both as modelled (C++ in float, Python in double on the widened operands); 1 Python differs from the double model;
+   2 C++ differs from the float model; 3 both *)
+Definition f32case := (list Z * fexpr * Z * Z)%type.
+Definition f32case_status (c : f32case) : N :=
+  let '(fs, e, py, cpp) := c in
+  let m32 := fbits32 (feval32 fs e) in
+  let m64 := fbits (feval (map widen fs) e) in
+  ((if Z.eqb py m64 then 0 else 1) + (if Z.eqb cpp m32 then 0 else 2))%N.
+
+(* do the two languages give the same real value?  (the float result widened = the double result) *)
+Definition f32case_same (c : f32case) : bool :=
+  let '(fs, e, py, cpp) := c in Z.eqb (widen cpp) py || ((cpp =? -1) && (py =? -1)).
